@@ -5,7 +5,7 @@
 From Coq Require Import List NArith ZArith QArith Qcanon Bool Lia.
 From ACB Require Import Base.Outcome Base.QcExtra Base.Arith Model.Tx Model.Ledger Model.Sfl
      Model.DeltaList Model.App Model.Summary Proofs.Tactics Proofs.C15Full Proofs.C04Sum
-     Proofs.RenderProps Proofs.C10Scan.
+     Proofs.RenderProps Proofs.C10Scan Proofs.C04Inv Proofs.C05NoPanic Proofs.C10Zero.
 Import ListNotations.
 Local Open Scope Qc_scope.
 
@@ -109,21 +109,58 @@ Proof.
   rewrite (sfl_info_eq bef2 bef1 t t sold aft2 aft1 st2 st1 HR eq_refl eq_refl HF HB). reflexivity.
 Qed.
 
+(* a superficial scan of the full history: the re-run, which sees at most the
+   same acquisitions, finds none or fewer, and the same shares at the end of
+   the window *)
+Lemma sfl_info_le bef2 bef1 t2 t1 sold aft2 aft1 st2 st1 s1 :
+  srel regof st1 st2 -> t_sd t2 = t_sd t1 -> t_af t2 = t_af t1 ->
+  FwdEq (t_sd t1) aft2 aft1 -> BwdLe (t_sd t1) bef2 bef1 ->
+  sfl_info exact bef1 t1 sold aft1 st1 = Ok (Some s1) ->
+  sfl_info exact bef2 t2 sold aft2 st2 = Ok None \/
+  exists s2, sfl_info exact bef2 t2 sold aft2 st2 = Ok (Some s2)
+             /\ sc_eop s2 = sc_eop s1 /\ sc_acq s2 <= sc_acq s1.
+Proof.
+  intros HR Hsd Haf HF HB. pose proof (dflt_srel _ _ _ HR) as Hd. destruct HR as (Ha & Hl & Ho & _).
+  unfold sfl_info. rewrite Hsd, Haf. fold (lp st2) (lp st1). rewrite <- Hl, (Hd (t_af t1)).
+  cbn [a_sub exact bind].
+  destruct (Qcltb (lp st1 - sold) 0); [discriminate|]. destruct (Qcltb _ 0); [discriminate|].
+  rewrite (fwd_scan_ext exact _ _ _ _ Hd), HF. intros H.
+  bind_as H as sf E1. cbn [bind].
+  destruct (negb _); [discriminate|].
+  bind_as H as sb E2.
+  destruct (HB _ _ _ _ E2) as (s2' & E2' & Hle).
+  rewrite (bwd_scan_ext exact _ _ _ _ Hd), E2'. cbn [bind].
+  destruct (Qcltb_spec 0 (sc_acq sb)) as [_|]; [|discriminate]. inversion H; subst s1. clear H.
+  destruct (Qcltb 0 (sc_acq s2')); [right | left; reflexivity].
+  exists s2'. split; [reflexivity|]. split; [|exact Hle].
+  rewrite (C05NoPanic.bwd_scan_eop _ _ _ _ _ _ E2'), (C05NoPanic.bwd_scan_eop _ _ _ _ _ _ E2). reflexivity.
+Qed.
+
 (* no superficial loss in the full history (no cell on the row): none in the
-   re-run, which sees at most the same acquisitions *)
+   re-run, which sees at most the same acquisitions.  Either the scans of the
+   full history found none, or (since the fix "treat a superficial loss that
+   rounds to zero effective cents as no superficial loss") the denied amount
+   rounded to zero effective cents - then the re-run's, at most as large, does
+   too (Proofs/C10Zero.v). *)
 Lemma delta_sfl_none bef2 bef1 t sold aft2 aft1 st2 st1 loss :
   srel regof st1 st2 -> FwdEq (t_sd t) aft2 aft1 -> BwdLe (t_sd t) bef2 bef1 ->
+  st_ok st1 -> 0 < sold -> loss < 0 ->
   delta_sfl exact bef1 t sold None aft1 st1 loss = Ok None ->
   delta_sfl exact bef2 t sold None aft2 st2 loss = Ok None.
 Proof.
-  intros HR HF HB H. unfold delta_sfl in *.
-  bind_as H as i Ei. destruct i as [s|].
-  - exfalso. bind_as H as m Em. unfold sfl_ratio in Em.
-    destruct (sc_buyers s); [discriminate|].
-    bind_as Em as total Et. bind_as Em as ps Ep. inversion Em; subst m. clear Em.
-    bind_as H as calc Ec. bind_as H as c Ec'. bind_as H as txs Etx. discriminate.
-  - rewrite (sfl_info_none bef2 bef1 t t sold aft2 aft1 st2 st1 HR eq_refl eq_refl HF HB Ei).
+  intros HR HF HB Hok Hsold Hloss H.
+  destruct (sfl_info exact bef1 t sold aft1 st1) as [[s1|]| |] eqn:Ei.
+  - assert (Hd2 : forall a, 0 <= C05NoPanic.dflt_of st2 a).
+    { intros a. unfold C05NoPanic.dflt_of. rewrite (dflt_srel _ _ _ HR a). apply (C05NoPanic.dflt_nonneg st1 a Hok). }
+    destruct (sfl_info_le bef2 bef1 t t sold aft2 aft1 st2 st1 s1 HR eq_refl eq_refl HF HB Ei)
+      as [E2|(s2 & E2 & Heop & Hacq)].
+    + unfold delta_sfl. rewrite E2. reflexivity.
+    + exact (delta_sfl_zero_rerun bef1 bef2 t sold aft1 aft2 st1 st2 loss s1 s2 Hd2 Hsold Hloss Ei H E2 Heop Hacq).
+  - unfold delta_sfl.
+    rewrite (sfl_info_none bef2 bef1 t t sold aft2 aft1 st2 st1 HR eq_refl eq_refl HF HB Ei).
     reflexivity.
+  - unfold delta_sfl in H. rewrite Ei in H. discriminate H.
+  - unfold delta_sfl in H. rewrite Ei in H. discriminate H.
 Qed.
 
 (* a cell with a non-zero value always yields a superficial loss *)
@@ -167,7 +204,7 @@ Proof.
     rewrite Eu. cbn [bind]. rewrite Esv. cbn [negb]. rewrite Eq. cbn [bind]. rewrite En. cbn [bind].
     eexists. split; reflexivity.
   - destruct m as [r|]; [|discriminate].
-    bind_as H as c Ec'. apply neg_unwrap_ok in Ec' as [-> Hc].
+    destruct (Qcltb_spec calc 0) as [Hc|]; cbn [negb] in H; [|discriminate].
     bind_as H as txs Etx. inversion H; subst info inj. cbn [sf_amount].
     cbn [a_sub exact bind].
     assert (E0 : Qcltb (Qcfrac 1 1000) (Qcabs (calc - calc)) = false).
@@ -189,15 +226,18 @@ Definition spec_nz (t : tx) : Prop :=
 Definition loss_row (d : delta) : Prop :=
   is_sell (t_act (d_tx d)) = true /\ exists g, d_gain d = Some g /\ g < 0.
 
+Definition sell_pos (t : tx) : Prop :=
+  match t_act t with Sell sh _ _ _ _ _ => 0 < sh | _ => True end.
+
 Lemma delta_for_tx_sim bef2 bef1 t aft2 aft1 st2 st1 d inj :
-  srel regof st1 st2 -> goodaf regof (t_af t) -> spec_nz t ->
+  srel regof st1 st2 -> goodaf regof (t_af t) -> spec_nz t -> st_ok st1 -> sell_pos t ->
   delta_for_tx exact bef1 t aft1 st1 = Ok (d, inj) ->
   FwdEq (t_sd t) aft2 aft1 ->
   (d_sfl d <> None -> BwdEq (t_sd t) bef2 bef1) ->
   (d_sfl d = None -> loss_row d -> BwdLe (t_sd t) bef2 bef1) ->
   delta_for_tx exact bef2 t aft2 st2 = Ok (d, inj).
 Proof.
-  intros HR Hga Hnz H HF HBe HBl. unfold delta_for_tx in *. rewrite (srel_pre _ _ _ _ HR Hga).
+  intros HR Hga Hnz Hok Hsp H HF HBe HBl. unfold delta_for_tx in *. rewrite (srel_pre _ _ _ _ HR Hga).
   set (pre := next_pre_status st1 (t_af t)) in *.
   destruct (sanity_check pre (t_af t)) as [[]| |]; cbn [bind] in *; try discriminate.
   destruct (t_act t) as [sh aps com rate crate|sh aps com rate crate spec|aps rate|sh aps|post pre_ io] eqn:Ea;
@@ -214,7 +254,8 @@ Proof.
     destruct spec as [[sv force]|].
     + exfalso. unfold spec_nz in Hnz. rewrite Ea in Hnz.
       exact (delta_sfl_spec_some _ _ _ _ _ _ _ _ _ Hnz Em eq_refl).
-    + rewrite (delta_sfl_none bef2 bef1 t sh aft2 aft1 st2 st1 g HR HF); [reflexivity| |exact Em].
+    + unfold sell_pos in Hsp. rewrite Ea in Hsp.
+      rewrite (delta_sfl_none bef2 bef1 t sh aft2 aft1 st2 st1 g HR HF); [reflexivity| |exact Hok|exact Hsp|exact Hg|exact Em].
       apply HBl; [reflexivity|]. split; cbn [mk_delta d_tx d_gain]; [rewrite Ea; reflexivity|].
       exists g. split; [reflexivity | exact Hg].
 Qed.
